@@ -1,3 +1,10 @@
+"""Model-table entries and spec symbols for contracts/rest.py (agent `rest`), four sections, each ACTIVE ONLY for executors that carry its
+gate flag (ex.rest_ff: dense Chebyshev routines of func_full.py; ex.rest_af: anova_func.py; ex.rest_b2: ANOVA.build_2; ex.rest_sp:
+sample_rand_poi / cdf_confidence / cross_act) and falling through to the previous hook otherwise.  Each section begins with a banner and
+its own description.  All axiom groups (rest_*) are exercised by lemmas/spotcheck.py through lemmas/spotcheck_ext_rest.py."""
+# ==================================================================================================
+# SECTION func_full (dense Chebyshev routines)
+# ==================================================================================================
 """Model-table entries and spec symbols for the dense ("full format") Chebyshev routines of teneva/func_full.py (contracts/rest.py; C12).
 
 Everything follows the wrapping pattern of kr.py (keep the previous hook, fall through to it) and is ACTIVE ONLY for executors that carry
@@ -717,3 +724,956 @@ def ff_reshape3(ex, st, a, shp, order, node):
 
 
 M.reshape = ff_reshape3
+
+
+# ==================================================================================================
+# SECTION anova_func
+# ==================================================================================================
+"""Model-table entries, value kinds and spec symbols for teneva/anova_func.py: the wrapper anova_func, ANOVA_func.__init__ and the cached
+property ANOVA_func.coeffs (contracts/rest.py; C13 functional variant, C10, C09).
+
+Everything follows the wrapping pattern of kr.py (keep the previous hook, fall through to it) and is ACTIVE ONLY for executors that carry the
+flag `ex.rest_af = True` (or for the value class defined here), so that the units of the other contract files see exactly the engine they
+were written against.  The units of contracts/rest.py additionally set `ex.anova` (attribute stores on `self`, methods of `self`) and
+`ex.functt` (batches of points: tags 'pts' / 'ptsT', iteration over the columns of X.T) - gates of mx_anova / mx_func.
+
+New theory symbols (z3 names; the Python variables are af_mv, af_mvsum, ...; every group is exercised by lemmas/spotcheck.py through
+lemmas/spotcheck_ext_rest.py):
+  rest_af_mv(A, v)            A @ v for a 2-D float array A and a 1-D float array v (needs len v = cols A): the vector of length rows A
+  rest_af_mvsum(A, v, i, k)   sum_{t<k} A[i, t] * v[t]      (the defining finite sum of rest_af_mv, products abstract: rmul)          group 'rest_af_mv'
+  rest_af_hsum(S, k)          sum_{t<k} S[t][0]             (sum of the leading entries of a list of vectors)                          group 'rest_af_hsum'
+  rest_af_chebmat(x, L, m)    THE m x L float matrix with the entries T_i(x_j), 0 <= i < m, 0 <= j < L (cheb of mx_func): what func_basis(x, m)
+                              returns for a 1-D array x of length L (unit func.func_basis proves shape and entries; a float matrix is determined by
+                              its shape and its entries, so the result IS this matrix)                                                 group 'rest_af_chebmat'
+  A + B = B + A               commutativity of the elementwise sum of two equally shaped matrices (madd)                              group 'rest_af_maddcomm'
+  rest_af_lsqv(H, v)          scipy.linalg.lstsq(H, v)[0] for a 1-D right-hand side v: UNINTERPRETED - the unit only states which (H, v) go in and
+                              where the solution goes; its VALUE is left to the bounded suite (A-LAPACK: the result is a function of its operands
+                              for the fixed driver / cond of the one call site).  No axiom.
+  rest_af_cvec(c), rest_af_clen(c)   the float vector behind an element code of the list of per-mode coefficient vectors and its length (no axiom)
+
+Value kind: af_Cfs - the list `cfs` of ANOVA_func.coeffs WHILE IT IS BUILT: empty, then a number (`cfs.append(y0)`), then one float vector per
+`cfs.append(vector)`; `cfs[0]` reads and `cfs[0] = x` / `cfs[0] += x` rebinds the leading number.  It is a subclass of mx_anova.CfsList, the kind
+that the unit anova_more.ANOVA_func.cores consumes as `self.coeffs` (number, then a list of float vectors).
+"""
+import ast
+import z3
+from ttvc import symex
+from ttvc.symex import (Unsupported, ContractMismatch, NONE, NORMAL, VStr, VOpt, VTuple, VRef, VList, VRec, VSeq, VArr, VFunc, VOpaque, Z, is_num,
+                        is_intsort)
+from ttvc import models as M, theory as T, vec as V
+from ttvc import mx_func as XF, mx_anova as XAN
+from ttvc.models import used, to_real
+
+af_I, af_R = z3.IntSort(), z3.RealSort()
+af_IA = z3.ArraySort(af_I, af_I)
+af_RA = z3.ArraySort(af_I, af_R)
+af_RAA = z3.ArraySort(af_I, af_RA)
+
+
+def af_on(ex):
+    return getattr(ex, 'rest_af', False)
+
+
+# ----------------------------------------------------------------------------------------------
+# theory
+
+af_mv = z3.Function('rest_af_mv', T.Mat, af_RA, af_RA)
+af_mvsum = z3.Function('rest_af_mvsum', T.Mat, af_RA, af_I, af_I, af_R)
+af_hsum = z3.Function('rest_af_hsum', af_RAA, af_I, af_R)
+af_lsqv = z3.Function('rest_af_lsqv', T.Mat, af_RA, af_RA)
+af_chebmat = z3.Function('rest_af_chebmat', af_RA, af_I, af_I, T.Mat)
+af_cvec = z3.Function('rest_af_cvec', af_I, af_RA)
+af_clen = z3.Function('rest_af_clen', af_I, af_I)
+
+af_A = T.a_
+af_v = z3.Const('rest_af_v', af_RA)
+af_S = z3.Const('rest_af_S', af_RAA)
+af_i, af_k, af_k1, af_L, af_m, af_j = z3.Ints('rest_af_i rest_af_k rest_af_k1 rest_af_L rest_af_m rest_af_j')
+
+T.GROUPS['rest_af_mv'] = [
+    T.A([af_A, af_v, af_i], af_mvsum(af_A, af_v, af_i, 0) == 0, [af_mvsum(af_A, af_v, af_i, 0)]),
+    T.A([af_A, af_v, af_i, af_k, af_k1], z3.Implies(z3.And(af_k >= 0, af_k1 == af_k + 1),
+                                                    af_mvsum(af_A, af_v, af_i, af_k1)
+                                                    == af_mvsum(af_A, af_v, af_i, af_k) + T.rmul(T.ent(af_A, af_i, af_k), af_v[af_k])),
+        [z3.MultiPattern(af_mvsum(af_A, af_v, af_i, af_k), af_mvsum(af_A, af_v, af_i, af_k1))]),
+    T.A([af_A, af_v, af_i], z3.Implies(z3.And(0 <= af_i, af_i < T.rows(af_A)),
+                                       af_mv(af_A, af_v)[af_i] == af_mvsum(af_A, af_v, af_i, T.cols(af_A))),
+        [af_mv(af_A, af_v)[af_i]]),
+]
+T.GROUPS['rest_af_hsum'] = [
+    T.A([af_S], af_hsum(af_S, 0) == 0, [af_hsum(af_S, 0)]),
+    T.A([af_S, af_k, af_k1], z3.Implies(z3.And(af_k >= 0, af_k1 == af_k + 1), af_hsum(af_S, af_k1) == af_hsum(af_S, af_k) + af_S[af_k][0]),
+        [z3.MultiPattern(af_hsum(af_S, af_k), af_hsum(af_S, af_k1))]),
+]
+# A + B = B + A for equally shaped matrices (instances only relate the two sums: no matching loop); lets `lamb * I + AtA` pass for `AtA + lamb * I`
+T.GROUPS['rest_af_maddcomm'] = [
+    T.A([T.a_, T.b_], z3.Implies(z3.And(T.rows(T.a_) == T.rows(T.b_), T.cols(T.a_) == T.cols(T.b_)), T.madd(T.a_, T.b_) == T.madd(T.b_, T.a_)),
+        [T.madd(T.a_, T.b_)]),
+]
+T.GROUPS['rest_af_chebmat'] = [
+    T.A([af_v, af_L, af_m], z3.Implies(z3.And(af_L >= 0, af_m >= 0), z3.And(T.rows(af_chebmat(af_v, af_L, af_m)) == af_m,
+                                                                            T.cols(af_chebmat(af_v, af_L, af_m)) == af_L)),
+        [af_chebmat(af_v, af_L, af_m)]),
+    T.A([af_v, af_L, af_m, af_i, af_j], z3.Implies(z3.And(0 <= af_i, af_i < af_m, 0 <= af_j, af_j < af_L),
+                                                   T.ent(af_chebmat(af_v, af_L, af_m), af_i, af_j) == XF.cheb(af_i, af_v[af_j])),
+        [T.ent(af_chebmat(af_v, af_L, af_m), af_i, af_j)]),
+]
+
+
+# ----------------------------------------------------------------------------------------------
+# the coefficient list while it is built
+
+class af_Cfs(XAN.CfsList):
+    """`cfs = []; cfs.append(number); cfs.append(vector) ...; cfs[0] += number`: head = the leading number (Python None while the list is
+    empty), tail_ref = heap reference of the VSeq of the vectors appended so far (element codes c: vector rest_af_cvec(c) of length rest_af_clen(c))."""
+    def copy(self):
+        return af_Cfs(self.head, self.tail_ref)
+
+
+def af_tail_unwrap(ex, st, v, node):
+    o = st.deref(v)
+    if not XF.is_vec(o, 'rvec'):
+        raise ContractMismatch('what is appended to the coefficient list after the constant term is not a 1-D float array with known entries')
+    c = ex.fresh_int('cvec')
+    st.assume(af_cvec(c) == o.t, af_clen(c) == Z(o.shape[0]))
+    return c
+
+
+def af_tail_seq(arr, n):
+    return VSeq(arr, n, lambda c: V.RVec(af_clen(c), af_cvec(c)), tag='rvecs', unwrap=af_tail_unwrap)
+
+
+def af_cfs_kind(ex, st):
+    """type hint for `cfs = []` / `self._cfs = cfs = []` (sidecar-defined sequence kind): the empty coefficient list"""
+    tail = st.alloc(af_tail_seq(ex.fresh('cfs_tail', af_IA), z3.IntVal(0)))
+    return st.alloc(af_Cfs(None, tail))
+
+
+def af_target_key(t):
+    if isinstance(t, ast.Name):
+        return t.id
+    if isinstance(t, ast.Attribute) and isinstance(t.value, ast.Name):
+        return f'{t.value.id}.{t.attr}'
+    return None
+
+
+_af_orig_st_Assign = symex.Exec.st_Assign
+
+
+def _af_st_Assign(self, s, st):
+    """`a = self.b = []` with a type hint: ONE new list object bound to every target (the generic path would create one per target)."""
+    if af_on(self) and len(s.targets) > 1 and isinstance(s.value, ast.List) and not s.value.elts:
+        keys = [af_target_key(t) for t in s.targets]
+        hints = [self.type_hints.get(k) for k in keys]
+        if any(h is not None for h in hints):
+            if any(h is not hints[0] for h in hints):
+                raise ContractMismatch(f'chained assignment of an empty list at line {s.lineno}: the targets {keys} do not carry the same type hint')
+            used('a = b = [] -> ONE new (empty) list object bound to both targets')
+            v = M.empty_seq(self, st, hints[0])
+            for t in s.targets:
+                if isinstance(t, ast.Name):
+                    st.vars[t.id] = v
+                else:
+                    obj = st.deref(self.ev(t.value, st))
+                    if not isinstance(obj, VRec):
+                        raise Unsupported(f'attribute store on {type(obj).__name__} at line {t.lineno}')
+                    obj.fields[t.attr] = v
+            return [(st, NORMAL)]
+    return _af_orig_st_Assign(self, s, st)
+
+
+symex.Exec.st_Assign = _af_st_Assign
+
+_af_orig_method = M.method
+
+
+def af_method(ex, st, recv, name, args, kwargs, node):
+    r = st.deref(recv)
+    if isinstance(r, af_Cfs) and af_on(ex):
+        if name != 'append' or len(args) != 1 or kwargs:
+            raise Unsupported(f'method .{name} on the coefficient list at line {node.lineno}')
+        if r.head is None:
+            v = st.deref(args[0])
+            if not is_num(v):
+                raise ContractMismatch('the first element appended to the coefficient list is not a number (the constant term)')
+            used('[].append(x) for a number x -> the one-element list [x]')
+            r.head = to_real(v)
+            return NONE
+        used('cfs.append(vector) -> the vector becomes the last element of the list')
+        return M.method(ex, st, r.tail_ref, 'append', args, kwargs, node)
+    return _af_orig_method(ex, st, recv, name, args, kwargs, node)
+
+
+M.method = af_method
+
+_af_orig_subscript = M.subscript
+
+
+def af_subscript(ex, st, base, sl_, node):
+    b = st.deref(base)
+    if isinstance(b, af_Cfs) and af_on(ex):
+        if isinstance(sl_, ast.Slice):
+            if sl_.step is None and sl_.upper is None and sl_.lower is not None and ex.ev(sl_.lower, st) == 1 and b.head is not None:
+                used('cfs[1:] -> the list of the per-mode coefficient vectors')
+                return b.tail_ref
+            raise Unsupported('slice of the coefficient list other than [1:]')
+        iv = ex.ev(sl_, st)
+        if isinstance(iv, int) and not isinstance(iv, bool) and iv == 0:
+            used('cfs[0] -> the leading number (IndexError for an empty list)')
+            if b.head is None:
+                ex.oblige(st, 'safety', 'list-index-in-range', False, node)
+                return ex.fresh_real('undef')
+            return b.head
+        raise Unsupported('index into the coefficient list other than 0')
+    return _af_orig_subscript(ex, st, base, sl_, node)
+
+
+M.subscript = af_subscript
+
+_af_orig_store = M.store
+
+
+def af_store(ex, st, base, sl_, v, node, base_node):
+    b = st.deref(base)
+    if isinstance(b, af_Cfs) and af_on(ex):
+        iv = ex.ev(sl_, st) if not isinstance(sl_, (ast.Slice, ast.Tuple)) else None
+        val = st.deref(v)
+        if isinstance(iv, int) and not isinstance(iv, bool) and iv == 0 and is_num(val):
+            used('cfs[0] = x -> the leading number is replaced (IndexError for an empty list)')
+            if b.head is None:
+                ex.oblige(st, 'safety', 'list-index-in-range', False, node)
+            b.head = to_real(val)
+            return
+        raise Unsupported(f'store into the coefficient list other than `cfs[0] = number` (line {node.lineno})')
+    return _af_orig_store(ex, st, base, sl_, v, node, base_node)
+
+
+M.store = af_store
+
+_af_orig_havoc = M.havoc
+
+
+def af_havoc(ex, st, v, name, mutated):
+    if af_on(ex) and isinstance(v, VRef) and isinstance(st.heap.get(v.oid), af_Cfs):
+        o = st.heap[v.oid]
+        if o.head is None:
+            raise ContractMismatch(f'the coefficient list {name} is still empty when the loop starts')
+        _af_orig_havoc(ex, st, o.tail_ref, name + '_tail', True)           # same kind, fresh contents and length (>= 0)
+        st.heap[v.oid] = af_Cfs(ex.fresh_real(name + '_head'), o.tail_ref)
+        return v
+    return _af_orig_havoc(ex, st, v, name, mutated)
+
+
+M.havoc = af_havoc
+
+
+# ----------------------------------------------------------------------------------------------
+# NumPy patterns of the ridge fit:  A.T @ y  (2-D @ 1-D with denotations),  v[1:]  of a float vector
+
+_af_orig_matmul = M.matmul
+
+
+def af_matmul(ex, st, l, r, node):
+    if af_on(ex) and isinstance(l, VArr) and l.ndim == 2 and l.tag == 'mat' and l.t is not None and XF.is_vec(r, 'rvec'):
+        used('A @ v for a 2-D float array A and a 1-D float array v -> rest_af_mv(A, v): entry i = sum_t A[i, t] v[t], length rows A; '
+             'requires len v = cols A   [axiom group rest_af_mv, spot-checked against NumPy]')
+        ex.oblige(st, 'call-pre', 'matmul-inner-dims-agree', Z(l.shape[1]) == Z(r.shape[0]), node)
+        out = XF.rvec(l.shape[0], af_mv(l.t, r.t))
+        out.af_fresh = 'result of @ (a new array)'
+        return out
+    return _af_orig_matmul(ex, st, l, r, node)
+
+
+M.matmul = af_matmul
+
+_af_orig_index = M.arr_index
+
+
+def af_arr_index(ex, st, a, sl_, node):
+    if af_on(ex) and XF.is_vec(a, 'rvec') and isinstance(sl_, ast.Slice) and sl_.step is None and sl_.upper is None and sl_.lower is not None:
+        lo = ex.ev(sl_.lower, st)
+        if isinstance(lo, int) and not isinstance(lo, bool) and lo >= 0:
+            used('v[lo:] of a 1-D float array for a literal lo >= 0 -> the entries from position lo on (NumPy clips: an empty array when lo > len v)')
+            n = Z(a.shape[0])
+            arr = ex.fresh('vtail', af_RA)
+            st.assume(z3.ForAll([af_k], arr[af_k] == a.t[af_k + lo], patterns=[arr[af_k]]))
+            return XF.rvec(z3.simplify(z3.If(n >= lo, n - lo, 0)), arr)
+    return _af_orig_index(ex, st, a, sl_, node)
+
+
+M.arr_index = af_arr_index
+
+
+def af_lstsq_vec(ex, st, args, kwargs, node):
+    """scipy.linalg.lstsq(H, v, ...) with a 1-D right-hand side (handed to the units through `callees={'sp.linalg.lstsq': ...}`): every keyword
+    must be a parameter scipy.linalg.lstsq has, the row counts must agree; the solution is the float vector rest_af_lsqv(H, v) of length cols H.
+    The call is logged (per path) in st.ghost['af_lstsq']: operands, the AST nodes of the two operand expressions, every bound parameter."""
+    for kw in kwargs:
+        ex.oblige(st, 'call-pre', f'scipy.linalg.lstsq-has-a-parameter-named-{kw}', z3.BoolVal(kw in XF.LSTSQ_PARAMS), node)
+    if len(args) > len(XF.LSTSQ_PARAMS):
+        raise Unsupported('scipy.linalg.lstsq with too many positional arguments')
+    bound = dict(zip(XF.LSTSQ_PARAMS, args))
+    nodes = dict(zip(XF.LSTSQ_PARAMS, node.args))
+    for k in node.keywords:
+        if k.arg in XF.LSTSQ_PARAMS:
+            if k.arg in bound:
+                raise Unsupported('scipy.linalg.lstsq: a parameter is given twice')
+            bound[k.arg], nodes[k.arg] = kwargs[k.arg], k.value
+    H, b = st.deref(bound.get('a')), st.deref(bound.get('b'))
+    if not (isinstance(H, VArr) and H.ndim == 2 and H.tag == 'mat' and H.t is not None and XF.is_vec(b, 'rvec')):
+        raise Unsupported('scipy.linalg.lstsq: only (2-D float array with a denotation, 1-D float array) is under this model')
+    used('scipy.linalg.lstsq(H, v, cond, overwrite_a, overwrite_b, check_finite, lapack_driver)[0] for a 1-D v -> rest_af_lsqv(H, v): a 1-D array of '
+         'length cols H, a function of (H, v) for the fixed cond / driver of the call site (value uninterpreted); requires rows H = len v; '
+         'overwrite_a / overwrite_b = True allow LAPACK to destroy the two operand buffers   [A-LAPACK]')
+    ex.oblige(st, 'call-pre', 'lstsq-row-counts-agree', Z(H.shape[0]) == Z(b.shape[0]), node)
+    sol = XF.rvec(H.shape[1], af_lsqv(H.t, b.t))
+    st.ghost['af_lstsq'] = st.ghost.get('af_lstsq', []) + [dict(H=H, b=b, bound=bound, nodes=nodes, sol=sol)]
+    return VTuple([sol, VOpaque('residues'), VOpaque('rank'), VOpaque('singular values')])
+
+
+# ==================================================================================================
+# SECTION ANOVA.build_2
+# ==================================================================================================
+"""Spec symbols, theory groups and model-table entries for ANOVA.build_2 (contracts/rest.py; C13, C10).
+
+Everything follows the wrapping pattern of kr.py (the previous hook is kept, whatever is not recognised falls through to it) and is
+ACTIVE ONLY for executors that carry the flag `ex.rest_b2 = True`.  The units of contracts/rest.py additionally set `ex.anova = True`
+and reuse the models of ttvc/mx_anova.py (IMat2 sample matrix, `c == x` masks with their provenance `eq_src`, KMap / KMap2 tables,
+attribute stores on `self`, coded lists of integer vectors) and its spec symbols ccnt / cmean.
+
+Spec symbols (every group is exercised by lemmas/spotcheck.py through lemmas/spotcheck_ext_rest.py):
+  rest_b2_ccnt2(c1, x1, c2, x2, n)     = #{s < n : c1[s] == x1 and c2[s] == x2}            samples that carry the pair of values
+  rest_b2_csum2(y, c1, x1, c2, x2, n)  = sum_{s<n, c1[s]==x1, c2[s]==x2} y[s]
+  rest_b2_cmean2(y, c1, x1, c2, x2, n) = csum2 / ccnt2  (for ccnt2 > 0)                    = np.mean(y[(c1 == x1) & (c2 == x2)])
+  rest_b2_tri(d, a)                    = sum_{t<a} (d - 1 - t)                             number of pairs (i1 < i2 < d) with i1 < a
+  rest_b2_pos(d, a, b)                 = tri(d, a) + b - a - 1                             storage position of the pair (a, b) in the
+                                         enumeration (0,1), (0,2), .., (0,d-1), (1,2), ..
+  rest_b2_e1(d, m), rest_b2_e2(d, m)   the two modes of the pair stored at position m of that enumeration (inverse of pos on 0 <= a < b < d)
+Theory groups:
+  'rest_b2_csum2'   recursive definitions of ccnt2 / csum2 over the sample index (two-term multi-patterns: no new terms) and
+                    ccnt2 >= 0 for n >= 0
+  'rest_b2_sym'     ccnt2 / csum2 / cmean2 do not depend on the order of the two conditions
+  'rest_b2_cmean2'  the defining equation of the conditional mean (a product of two symbolic numbers: only ever handed to
+                    quantifier-free obligations)
+  'rest_b2_tri'     recursive definition of tri, definition of pos (the closed form 2 tri(d, a) = a (2d - 1 - a) is DERIVED in the unit),
+                    e1 / e2 invert pos on the pairs 0 <= a < b < d
+
+Value kinds and hooks:
+  b2_MaskCache   the per-call dict `cache` of build_2: keys are plain integers (arity 1) or pairs of integers (arity 2), values are
+                 boolean masks `c == x` of which the PROVENANCE is stored (the column c, the value x, the length): z3 arrays
+                 has / col / xv / ln indexed by (arity, first, second).  `dict()` / `{}` assigned to a name that the unit declares by
+                 a type hint gives the empty cache (no key stored).  A lookup of a key that is not stored raises KeyError:
+                 outside `try` it is the safety obligation `key-present`; the statement
+                        try: NAME = cache[key]
+                        except KeyError: <handler>
+                 forks on `has[key]`: stored -> the body runs, not stored -> the handler runs (nothing else in such a body can raise).
+  b2_PairTab     a mutable dict from pairs of integers to reals (`f2_curr`): the KMap2 of mx_anova plus stores; once appended to the
+                 list of pair tables it is frozen (a later store would be visible through the list: Unsupported).
+  m1 & m2        of two masks with provenance: the mask of the conjunction (provenance `b2_and_src`), equal lengths obliged;
+  m.sum()        of such a mask: ccnt2 (an integer >= 0);  y[m]: the selected sub-vector (b2_MaskedSel2, never materialised);
+  np.mean(y[m])  = cmean2, obliges a non-empty selection (NumPy returns nan with a warning otherwise: outside A-REAL) - handed to the
+                 units through `callees` (b2_np_mean falls back to mx_anova.np_mean).
+  enumerate(xs, start=s) is handled (ungated) by ttvc/mx_act.py: pairs (s + j, xs[j]).
+"""
+import ast
+import z3
+from ttvc import symex
+from ttvc.symex import Unsupported, ContractMismatch, NONE, VTuple, VRef, VList, VSeq, VArr, Z, is_num, is_intsort
+from ttvc import models as M, theory as T
+from ttvc import mx_anova as XAN
+from ttvc.models import used, to_real
+
+b2_I, b2_R, b2_B = z3.IntSort(), z3.RealSort(), z3.BoolSort()
+b2_IA, b2_RA, b2_BA, b2_RAA = XAN.IA, XAN.RA, XAN.BA, XAN.RAA
+b2_BAA = z3.ArraySort(b2_I, b2_BA)
+
+
+def b2_A3(sort):
+    """(arity, first, second) -> sort"""
+    return z3.ArraySort(b2_I, z3.ArraySort(b2_I, z3.ArraySort(b2_I, sort)))
+
+
+def b2_on(ex):
+    return getattr(ex, 'rest_b2', False)
+
+
+# ----------------------------------------------------------------------------------------------
+# theory
+
+b2_ccnt2 = z3.Function('rest_b2_ccnt2', b2_IA, b2_I, b2_IA, b2_I, b2_I, b2_I)
+b2_csum2 = z3.Function('rest_b2_csum2', b2_RA, b2_IA, b2_I, b2_IA, b2_I, b2_I, b2_R)
+b2_cmean2 = z3.Function('rest_b2_cmean2', b2_RA, b2_IA, b2_I, b2_IA, b2_I, b2_I, b2_R)
+b2_tri = z3.Function('rest_b2_tri', b2_I, b2_I, b2_I)
+b2_pos = z3.Function('rest_b2_pos', b2_I, b2_I, b2_I, b2_I)
+b2_e1 = z3.Function('rest_b2_e1', b2_I, b2_I, b2_I)
+b2_e2 = z3.Function('rest_b2_e2', b2_I, b2_I, b2_I)
+
+_b2_c1, _b2_c2 = z3.Consts('rest_b2_c1!v rest_b2_c2!v', b2_IA)
+_b2_y = z3.Const('rest_b2_y!v', b2_RA)
+_b2_x1, _b2_x2, _b2_k, _b2_j, _b2_n, _b2_d, _b2_a, _b2_b = z3.Ints('rest_b2_x1!v rest_b2_x2!v rest_b2_k!v rest_b2_j!v rest_b2_n!v rest_b2_d!v rest_b2_a!v rest_b2_b!v')
+
+
+def _b2_hit(k):
+    return z3.And(_b2_c1[k] == _b2_x1, _b2_c2[k] == _b2_x2)
+
+
+T.GROUPS['rest_b2_csum2'] = [
+    T.A([_b2_c1, _b2_x1, _b2_c2, _b2_x2], b2_ccnt2(_b2_c1, _b2_x1, _b2_c2, _b2_x2, 0) == 0, [b2_ccnt2(_b2_c1, _b2_x1, _b2_c2, _b2_x2, 0)]),
+    T.A([_b2_c1, _b2_x1, _b2_c2, _b2_x2, _b2_k, _b2_j],
+        z3.Implies(z3.And(_b2_k >= 0, _b2_j == _b2_k + 1),
+                   b2_ccnt2(_b2_c1, _b2_x1, _b2_c2, _b2_x2, _b2_j) == b2_ccnt2(_b2_c1, _b2_x1, _b2_c2, _b2_x2, _b2_k) + z3.If(_b2_hit(_b2_k), 1, 0)),
+        [z3.MultiPattern(b2_ccnt2(_b2_c1, _b2_x1, _b2_c2, _b2_x2, _b2_k), b2_ccnt2(_b2_c1, _b2_x1, _b2_c2, _b2_x2, _b2_j))]),
+    T.A([_b2_c1, _b2_x1, _b2_c2, _b2_x2, _b2_n], z3.Implies(_b2_n >= 0, b2_ccnt2(_b2_c1, _b2_x1, _b2_c2, _b2_x2, _b2_n) >= 0),
+        [b2_ccnt2(_b2_c1, _b2_x1, _b2_c2, _b2_x2, _b2_n)]),
+    T.A([_b2_y, _b2_c1, _b2_x1, _b2_c2, _b2_x2], b2_csum2(_b2_y, _b2_c1, _b2_x1, _b2_c2, _b2_x2, 0) == 0,
+        [b2_csum2(_b2_y, _b2_c1, _b2_x1, _b2_c2, _b2_x2, 0)]),
+    T.A([_b2_y, _b2_c1, _b2_x1, _b2_c2, _b2_x2, _b2_k, _b2_j],
+        z3.Implies(z3.And(_b2_k >= 0, _b2_j == _b2_k + 1),
+                   b2_csum2(_b2_y, _b2_c1, _b2_x1, _b2_c2, _b2_x2, _b2_j)
+                   == b2_csum2(_b2_y, _b2_c1, _b2_x1, _b2_c2, _b2_x2, _b2_k) + z3.If(_b2_hit(_b2_k), _b2_y[_b2_k], 0)),
+        [z3.MultiPattern(b2_csum2(_b2_y, _b2_c1, _b2_x1, _b2_c2, _b2_x2, _b2_k), b2_csum2(_b2_y, _b2_c1, _b2_x1, _b2_c2, _b2_x2, _b2_j))]),
+]
+T.GROUPS['rest_b2_cmean2'] = [
+    T.A([_b2_y, _b2_c1, _b2_x1, _b2_c2, _b2_x2, _b2_n],
+        z3.Implies(b2_ccnt2(_b2_c1, _b2_x1, _b2_c2, _b2_x2, _b2_n) >= 1,
+                   b2_cmean2(_b2_y, _b2_c1, _b2_x1, _b2_c2, _b2_x2, _b2_n) * z3.ToReal(b2_ccnt2(_b2_c1, _b2_x1, _b2_c2, _b2_x2, _b2_n))
+                   == b2_csum2(_b2_y, _b2_c1, _b2_x1, _b2_c2, _b2_x2, _b2_n)),
+        [b2_cmean2(_b2_y, _b2_c1, _b2_x1, _b2_c2, _b2_x2, _b2_n)]),
+]
+_b2_args = (_b2_c1, _b2_x1, _b2_c2, _b2_x2, _b2_n)
+_b2_swap = (_b2_c2, _b2_x2, _b2_c1, _b2_x1, _b2_n)
+# the order of the two conditions does not matter (`m2 & m1` is the same mask as `m1 & m2`): each instance creates at most the one
+# swapped term, whose own instance creates nothing new
+T.GROUPS['rest_b2_sym'] = [
+    T.A([_b2_c1, _b2_x1, _b2_c2, _b2_x2, _b2_n], b2_ccnt2(*_b2_args) == b2_ccnt2(*_b2_swap), [b2_ccnt2(*_b2_args)]),
+    T.A([_b2_y, _b2_c1, _b2_x1, _b2_c2, _b2_x2, _b2_n], b2_csum2(_b2_y, *_b2_args) == b2_csum2(_b2_y, *_b2_swap), [b2_csum2(_b2_y, *_b2_args)]),
+    T.A([_b2_y, _b2_c1, _b2_x1, _b2_c2, _b2_x2, _b2_n],
+        z3.Implies(b2_ccnt2(*_b2_args) >= 1, b2_cmean2(_b2_y, *_b2_args) == b2_cmean2(_b2_y, *_b2_swap)), [b2_cmean2(_b2_y, *_b2_args)]),
+]
+T.GROUPS['rest_b2_tri'] = [
+    T.A([_b2_d], b2_tri(_b2_d, 0) == 0, [b2_tri(_b2_d, 0)]),
+    T.A([_b2_d, _b2_k, _b2_j], z3.Implies(z3.And(_b2_k >= 0, _b2_j == _b2_k + 1), b2_tri(_b2_d, _b2_j) == b2_tri(_b2_d, _b2_k) + _b2_d - 1 - _b2_k),
+        [z3.MultiPattern(b2_tri(_b2_d, _b2_k), b2_tri(_b2_d, _b2_j))]),
+    T.A([_b2_d, _b2_a, _b2_b], b2_pos(_b2_d, _b2_a, _b2_b) == b2_tri(_b2_d, _b2_a) + _b2_b - _b2_a - 1, [b2_pos(_b2_d, _b2_a, _b2_b)]),
+    T.A([_b2_d, _b2_a, _b2_b], z3.Implies(z3.And(0 <= _b2_a, _b2_a < _b2_b, _b2_b < _b2_d),
+                                          z3.And(b2_e1(_b2_d, b2_pos(_b2_d, _b2_a, _b2_b)) == _b2_a, b2_e2(_b2_d, b2_pos(_b2_d, _b2_a, _b2_b)) == _b2_b)),
+        [b2_pos(_b2_d, _b2_a, _b2_b)]),
+]
+
+
+# ----------------------------------------------------------------------------------------------
+# value kinds
+
+class b2_MaskCache:
+    def __init__(self, has, col, xv, ln):
+        self.has, self.col, self.xv, self.ln = has, col, xv, ln
+
+    def copy(self):
+        return b2_MaskCache(self.has, self.col, self.xv, self.ln)
+
+
+class b2_PairTab(XAN.KMap2):
+    def __init__(self, val, dom, frozen=False):
+        super().__init__(val, dom)
+        self.frozen = frozen
+
+    def copy(self):
+        return b2_PairTab(self.val, self.dom, self.frozen)
+
+
+class b2_MaskedSel2(VArr):
+    """y[(c1 == x1) & (c2 == x2)]: the sub-vector of the real vector y (length n) at the samples that carry the pair."""
+    def __init__(self, nsel, y, src, n):
+        super().__init__((nsel,), None, 'masked2', 'f')
+        self.y, self.src, self.n = y, src, n
+
+
+def b2_mask_cache(ex, st):
+    """type hint for `cache = dict()`: the empty cache of masks"""
+    used('dict() / {} -> empty dict (no key stored); here: keys = integers or pairs of integers, values = masks `c == x` [rest_b2]')
+    empty = z3.K(b2_I, z3.K(b2_I, z3.K(b2_I, z3.BoolVal(False))))
+    return st.alloc(b2_MaskCache(empty, ex.fresh('cache_col', b2_A3(b2_IA)), ex.fresh('cache_x', b2_A3(b2_I)), ex.fresh('cache_len', b2_A3(b2_I))))
+
+
+def b2_pair_table(ex, st):
+    """type hint for `f2_curr = {}`: the empty dict from pairs of integers to reals"""
+    used('{} -> empty dict (no key stored); here: keys = pairs of integers, values = reals [rest_b2]')
+    return st.alloc(b2_PairTab(ex.fresh('dict2val', b2_RAA), z3.K(b2_I, z3.K(b2_I, z3.BoolVal(False)))))
+
+
+def b2_pair_table_seq(ex, st, arr=None, n=None):
+    """A Python list of dicts from pairs of integers to reals (symbolic length): element k is the table with code arr[k]
+    (values T2VAL(code), key set T2DOM(code) of mx_anova - the list kind that ANOVA.calc_2 reads)."""
+    seq = VSeq(arr if arr is not None else ex.fresh('tables2', b2_IA), n if n is not None else z3.IntVal(0),
+               lambda c: XAN.KMap2(XAN.T2VAL(c), XAN.T2DOM(c)), tag='tables2')
+
+    def unwrap(ex_, st_, v, node):
+        o = st_.deref(v)
+        if not isinstance(o, b2_PairTab):
+            raise ContractMismatch('what is appended to the list of pair tables is not a dict from pairs of indices to reals')
+        if isinstance(v, VRef):
+            st_.heap[v.oid].frozen = True
+        c = ex_.fresh_int('table2')
+        st_.assume(XAN.T2VAL(c) == o.val, XAN.T2DOM(c) == o.dom)
+        return c
+    seq.unwrap = unwrap
+    return st.alloc(seq)
+
+
+# ---- `name = dict()` / `name = {}` for a name declared by the unit
+
+_b2_orig_st_Assign = symex.Exec.st_Assign
+
+
+def _b2_st_Assign(self, s, st):
+    if b2_on(self) and len(s.targets) == 1 and isinstance(s.targets[0], ast.Name) and callable(self.type_hints.get(s.targets[0].id)) \
+            and getattr(self.type_hints[s.targets[0].id], 'b2_dict', False):
+        v = s.value
+        empty = (isinstance(v, ast.Dict) and not v.keys) or \
+                (isinstance(v, ast.Call) and isinstance(v.func, ast.Name) and v.func.id == 'dict' and 'dict' not in st.vars and not v.args and not v.keywords)
+        if empty:
+            st.vars[s.targets[0].id] = self.type_hints[s.targets[0].id](self, st)
+            return [(st, symex.NORMAL)]
+    return _b2_orig_st_Assign(self, s, st)
+
+
+symex.Exec.st_Assign = _b2_st_Assign
+
+
+def b2_dict_hint(kind):
+    """marks a type hint as the kind of an empty dict literal (only such hints are looked at by the hook above)"""
+    f = lambda ex, st: kind(ex, st)
+    f.b2_dict = True
+    return f
+
+
+# ---- keys
+
+def _b2_key(ex, st, sl_, what):
+    """(arity, first, second) of a dict key: a plain integer or a pair of integers"""
+    key = ex.ev(sl_, st)
+    if isinstance(key, VTuple) and len(key.items) == 2 and all(is_intsort(x) and not isinstance(x, bool) for x in key.items):
+        return z3.IntVal(2), Z(key.items[0]), Z(key.items[1])
+    if is_intsort(key) and not isinstance(key, bool):
+        return z3.IntVal(1), Z(key), z3.IntVal(0)
+    raise Unsupported(f'{what} with a key that is neither an integer nor a pair of integers')
+
+
+def _b2_sel(arr, key):
+    return arr[key[0]][key[1]][key[2]]
+
+
+def _b2_upd(arr, key, v):
+    a1 = arr[key[0]]
+    return z3.Store(arr, key[0], z3.Store(a1, key[1], z3.Store(a1[key[1]], key[2], v)))
+
+
+_b2_iq = z3.Int('rest_b2_i!q')
+
+
+def _b2_cached_mask(ex, st, c, key):
+    """the mask stored under the key: the mask `col == xv` of the recorded provenance"""
+    col, xv, ln = _b2_sel(c.col, key), _b2_sel(c.xv, key), _b2_sel(c.ln, key)
+    mk = ex.fresh('cmask', b2_BA)
+    st.assume(z3.ForAll([_b2_iq], mk[_b2_iq] == (col[_b2_iq] == xv), patterns=[mk[_b2_iq]]))
+    out = VArr((ln,), mk, 'bvec', 'b')
+    out.eq_src = (col, xv)
+    return out
+
+
+_b2_orig_subscript = M.subscript
+
+
+def b2_subscript(ex, st, base, sl_, node):
+    b = st.deref(base)
+    if isinstance(b, b2_MaskCache):
+        if not b2_on(ex):
+            raise Unsupported('cache of masks outside its tier')
+        key = _b2_key(ex, st, sl_, 'dict lookup')
+        used('cache[key] -> the stored mask; KeyError unless the key is stored [rest_b2]')
+        ex.oblige(st, 'safety', 'key-present', _b2_sel(b.has, key), node)
+        return _b2_cached_mask(ex, st, b, key)
+    return _b2_orig_subscript(ex, st, base, sl_, node)
+
+
+M.subscript = b2_subscript
+
+_b2_orig_store = M.store
+
+
+def b2_store(ex, st, base, sl_, v, node, base_node):
+    b = st.deref(base)
+    if isinstance(b, b2_MaskCache):
+        if not b2_on(ex):
+            raise Unsupported('cache of masks outside its tier')
+        key = _b2_key(ex, st, sl_, 'dict store')
+        mk = st.deref(v)
+        src = getattr(mk, 'eq_src', None) if isinstance(mk, VArr) and mk.ndim == 1 and mk.tag == 'bvec' else None
+        if src is None:
+            raise Unsupported(f'store of something else than a mask `column == value` into the cache (line {node.lineno})')
+        used('cache[key] = mask -> key stored with the mask [rest_b2]')
+        b.has, b.col = _b2_upd(b.has, key, z3.BoolVal(True)), _b2_upd(b.col, key, src[0])
+        b.xv, b.ln = _b2_upd(b.xv, key, src[1]), _b2_upd(b.ln, key, Z(mk.shape[0]))
+        return
+    if isinstance(b, b2_PairTab):
+        if not b2_on(ex):
+            raise Unsupported('pair table outside its tier')
+        if b.frozen:
+            raise Unsupported(f'store into a dict that already lives in a list (line {node.lineno}): aliasing is not modelled')
+        key = ex.ev(sl_, st)
+        if not (isinstance(key, VTuple) and len(key.items) == 2 and all(is_intsort(x) and not isinstance(x, bool) for x in key.items)):
+            raise Unsupported('store into a dict of pairs with a key that is not a pair of integers')
+        val = ex.need_num(st, v, node, 'dict-value')
+        used('d[x1, x2] = v -> key (x1, x2) added, value stored [rest_b2]')
+        k1, k2 = Z(key.items[0]), Z(key.items[1])
+        b.val = z3.Store(b.val, k1, z3.Store(b.val[k1], k2, to_real(val)))
+        b.dom = z3.Store(b.dom, k1, z3.Store(b.dom[k1], k2, z3.BoolVal(True)))
+        return
+    return _b2_orig_store(ex, st, base, sl_, v, node, base_node)
+
+
+M.store = b2_store
+
+_b2_orig_havoc = M.havoc
+
+
+def b2_havoc(ex, st, v, name, mutated):
+    o = st.heap.get(v.oid) if isinstance(v, VRef) else None
+    if isinstance(o, b2_MaskCache):
+        st.heap[v.oid] = b2_MaskCache(ex.fresh(name + '_has', b2_A3(b2_B)), ex.fresh(name + '_col', b2_A3(b2_IA)),
+                                      ex.fresh(name + '_x', b2_A3(b2_I)), ex.fresh(name + '_len', b2_A3(b2_I)))
+        return v
+    if isinstance(o, b2_PairTab):
+        if o.frozen:
+            raise ContractMismatch(f'the dict {name} is mutated in a loop after it was appended to a list')
+        st.heap[v.oid] = b2_PairTab(ex.fresh(name + '_val', b2_RAA), ex.fresh(name + '_dom', b2_BAA))
+        return v
+    return _b2_orig_havoc(ex, st, v, name, mutated)
+
+
+M.havoc = b2_havoc
+
+
+# ---- try: NAME = cache[key] / except KeyError: handler
+
+_b2_orig_try = M.try_stmt
+
+
+def b2_try_stmt(ex, st, s):
+    if b2_on(ex) and not s.orelse and not s.finalbody and len(s.handlers) == 1 and s.handlers[0].name is None \
+            and isinstance(s.handlers[0].type, ast.Name) and s.handlers[0].type.id == 'KeyError' and 'KeyError' not in st.vars \
+            and len(s.body) == 1 and isinstance(s.body[0], ast.Assign) and len(s.body[0].targets) == 1 and isinstance(s.body[0].targets[0], ast.Name) \
+            and isinstance(s.body[0].value, ast.Subscript) and isinstance(s.body[0].value.value, ast.Name):
+        c = st.deref(st.vars.get(s.body[0].value.value.id))
+        if isinstance(c, b2_MaskCache):
+            key = _b2_key(ex, st, s.body[0].value.slice, 'dict lookup')
+            used('try: v = cache[key] / except KeyError: handler -> the body runs iff the key is stored, the handler iff it is not [rest_b2]')
+            if ex.decide(st, _b2_sel(c.has, key), s):
+                return ex.exec_block(s.body, st)
+            return ex.exec_block(s.handlers[0].body, st)
+    return _b2_orig_try(ex, st, s)
+
+
+M.try_stmt = b2_try_stmt
+
+
+# ---- m1 & m2, m.sum(), y[m], np.mean(y[m])
+
+_b2_orig_binop = M.arr_binop
+
+
+def b2_arr_binop(ex, st, op, l, r, node):
+    if b2_on(ex) and isinstance(op, ast.BitAnd) and all(isinstance(x, VArr) and x.ndim == 1 and x.tag == 'bvec' and x.t is not None
+                                                         and getattr(x, 'eq_src', None) is not None for x in (l, r)):
+        used('m1 & m2 of two boolean masks -> elementwise conjunction (requires equal lengths) [rest_b2]')
+        ex.oblige(st, 'call-pre', 'masks-of-equal-length', Z(l.shape[0]) == Z(r.shape[0]), node)
+        mk = ex.fresh('andmask', b2_BA)
+        st.assume(z3.ForAll([_b2_iq], mk[_b2_iq] == z3.And(l.t[_b2_iq], r.t[_b2_iq]), patterns=[mk[_b2_iq]]))
+        out = VArr(l.shape, mk, 'bvec', 'b')
+        out.b2_and_src = (l.eq_src, r.eq_src)
+        return out
+    return _b2_orig_binop(ex, st, op, l, r, node)
+
+
+M.arr_binop = b2_arr_binop
+
+
+def _b2_cnt(src, n):
+    return b2_ccnt2(src[0][0], src[0][1], src[1][0], src[1][1], n)
+
+
+_b2_orig_method = M.method
+
+
+def b2_method(ex, st, recv, name, args, kwargs, node):
+    r = st.deref(recv)
+    if b2_on(ex) and isinstance(r, VArr) and name == 'sum' and not args and not kwargs and getattr(r, 'b2_and_src', None) is not None:
+        used('((c1 == x1) & (c2 == x2)).sum() -> ccnt2(c1, x1, c2, x2, n): the number of positions where both hold (an integer >= 0) '
+             '[axiom group rest_b2_csum2, spot-checked]')
+        return _b2_cnt(r.b2_and_src, Z(r.shape[0]))
+    if b2_on(ex) and isinstance(r, b2_MaskedSel2):
+        if name == 'mean':                 # y[m].mean(): the same statement as np.mean(y[m]) (the generic model would answer "some real")
+            return b2_np_mean(ex, st, [r] + list(args), kwargs, node)
+        raise Unsupported(f'method .{name} on a selection by a conjunction of masks at line {node.lineno}')
+    return _b2_orig_method(ex, st, recv, name, args, kwargs, node)
+
+
+M.method = b2_method
+
+_b2_orig_index = M.arr_index
+
+
+def b2_arr_index(ex, st, a, sl_, node):
+    if b2_on(ex) and isinstance(a, VArr) and a.ndim == 1 and a.tag == 'rvec' and a.t is not None and isinstance(sl_, ast.Name):
+        mk = st.deref(ex.ev(sl_, st))
+        src = getattr(mk, 'b2_and_src', None) if isinstance(mk, VArr) else None
+        if src is not None:
+            used('y[(c1 == x1) & (c2 == x2)] -> the sub-vector of y at the positions where both hold (requires equal lengths) [rest_b2]')
+            n = Z(a.shape[0])
+            ex.oblige(st, 'call-pre', 'mask-length-is-the-vector-length', Z(mk.shape[0]) == n, node)
+            nsel = ex.fresh_int('nsel2')
+            st.assume(nsel == _b2_cnt(src, n))
+            return b2_MaskedSel2(nsel, a.t, src, n)
+    return _b2_orig_index(ex, st, a, sl_, node)
+
+
+M.arr_index = b2_arr_index
+
+
+def b2_np_mean(ex, st, args, kwargs, node):
+    """np.mean for build_2 (handed to the units through `callees`); every other pattern: mx_anova.np_mean"""
+    v = st.deref(args[0]) if len(args) == 1 and not kwargs else None
+    if b2_on(ex) and isinstance(v, b2_MaskedSel2):
+        used('np.mean(y[(c1 == x1) & (c2 == x2)]) -> cmean2(y, c1, x1, c2, x2, n): conditional mean over the samples that carry the pair; '
+             'requires a non-empty selection (nan + warning otherwise) [axiom group rest_b2_cmean2, spot-checked]')
+        ex.oblige(st, 'safety', 'mean-of-a-non-empty-selection', _b2_cnt(v.src, v.n) >= 1, node)
+        return b2_cmean2(v.y, v.src[0][0], v.src[0][1], v.src[1][0], v.src[1][1], v.n)
+    return XAN.np_mean(ex, st, args, kwargs, node)
+
+
+# ==================================================================================================
+# SECTION sample_rand_poi / cdf_confidence / cross_act
+# ==================================================================================================
+"""Model-table entries for the units of contracts/rest.py (sample.sample_rand_poi: C14 / C10;  stat.cdf_confidence: C18 / C10;
+cross_act._inter_update: Generator.permutation, C10).
+
+Everything follows the wrapping pattern of kr.py / mx_misc.py: the previous hook is kept and every pattern that is not recognised
+falls through to it.  ALL hooks of this module are active only for executors that carry the flag `ex.rest_sp = True`, so that no
+other unit sees a different engine.  New value kinds (float analogues of mx_misc.VRows / 'imat'):
+  * `sp_VRowsF`: the list of d float vectors of one common length m built by `[rand.uniform(lo_k, hi_k, m) for k in ..]`
+    (row k = arr[k], an Int -> Real array); the d draws are logged as ONE family in st.ghost['drawlog'] (see mx_misc.listcomp2);
+  * tag 'rest_sp_fmat': np.vstack of such a list (d x m float matrix, rows = the vectors) and its transpose.
+np.log / np.clip occur in no other function of teneva; their models (`sp_m_log`, `sp_m_clip`) are NOT put into models.FUNCS but
+handed to the one executor that needs them through `callees={'np.log': .., 'np.clip': ..}` (symex looks a dotted NumPy name up in
+the unit's callees first), so the lenient tiers of other units keep treating these names exactly as before.
+"""
+import ast
+import z3
+from ttvc.symex import Unsupported, ContractMismatch, NONE, VStr, VOpt, VTuple, VRef, VList, VSeq, VArr, VOpaque, Z, is_num, is_intsort
+from ttvc import models as M, theory as T, vec as V, pt as PT, rnd as R
+from ttvc import mx_misc as XM
+from ttvc.models import model, used, to_real
+
+_sp_i = z3.Int('rest_sp_i')
+
+
+def sp_on(ex):
+    return getattr(ex, 'rest_sp', False)
+
+
+# ----------------------------------------------------------------------------------------------
+# sample.sample_rand_poi:  [rand.uniform(a[i], b[i], int(m)) for i in range(d)]  ->  np.vstack(X)  ->  .T
+
+_sp_orig_method = M.method
+
+
+def sp_method(ex, st, recv, name, args, kwargs, node):
+    r = st.deref(recv)
+    if sp_on(ex) and isinstance(r, R.VGen) and name == 'uniform' and len(args) == 3 and not kwargs:
+        p0, p1 = [to_real(ex.need_num(st, a, node)) for a in args[:2]]
+        s_ = ex.need_num(st, args[2], node)
+        used('Generator.uniform(low, high, size) with a positional integer size -> float vector of that length (integer size >= 0 required); '
+             'entries in [low, high] when low <= high')
+        ex.oblige(st, 'call-pre', 'draw-size-is-a-non-negative-integer', z3.And(z3.BoolVal(is_intsort(s_)), Z(s_) >= 0), node)
+        arr = ex.fresh('uniform', XM.RA)
+        st.assume(z3.ForAll([_sp_i], z3.Implies(p0 <= p1, z3.And(p0 <= arr[_sp_i], arr[_sp_i] <= p1)), patterns=[arr[_sp_i]]))
+        out = XM.rvec(s_, arr)
+        XM.log_draw(st, r, 'uniform', (p0, p1), [s_], arr)
+        return out
+    if sp_on(ex) and isinstance(r, R.VGen) and name == 'permutation' and len(args) == 1 and not kwargs:
+        k = ex.need_num(st, args[0], node)
+        if not is_intsort(k):
+            raise Unsupported('Generator.permutation of something else than an integer')
+        used('Generator.permutation(k) for an integer k >= 0 -> integer vector of length k, a permutation of arange(k): entries in [0, k), pairwise distinct')
+        ex.oblige(st, 'call-pre', 'permutation-of-a-non-negative-integer', Z(k) >= 0, node)
+        arr = ex.fresh('perm', XM.IA)
+        i2 = z3.Int('rest_sp_i2')
+        st.assume(z3.ForAll([_sp_i], z3.Implies(z3.And(0 <= _sp_i, _sp_i < Z(k)), z3.And(0 <= arr[_sp_i], arr[_sp_i] < Z(k))), patterns=[arr[_sp_i]]))
+        st.assume(z3.ForAll([_sp_i, i2], z3.Implies(z3.And(0 <= _sp_i, _sp_i < i2, i2 < Z(k)), arr[_sp_i] != arr[i2]),
+                            patterns=[z3.MultiPattern(arr[_sp_i], arr[i2])]))
+        out = XM.ivec(k, arr)
+        XM.log_draw(st, r, 'permutation', (Z(k),), [k], arr)
+        return out
+    return _sp_orig_method(ex, st, recv, name, args, kwargs, node)
+
+
+M.method = sp_method
+
+
+class sp_VRowsF(VSeq):
+    """List of d float vectors of one common length m (row j = arr[j], an Int -> Real array)."""
+    def __init__(self, arr, n, m):
+        VSeq.__init__(self, arr, n, lambda t, m=m: XM.rvec(m, t), 'rest_sp_fvrows')
+        self.m = m
+
+    def copy(self):
+        return sp_VRowsF(self.arr, self.n, self.m)
+
+
+_sp_orig_listcomp = M.listcomp
+
+
+def sp_listcomp(ex, st, e):
+    """[rand.uniform(lo(k), hi(k), m) for k in seq]: one draw per element, in the order of the elements."""
+    g = e.generators[0] if len(e.generators) == 1 else None
+    if not sp_on(ex) or g is None or g.ifs \
+            or not any(isinstance(x, ast.Call) and isinstance(x.func, ast.Attribute) and x.func.attr == 'uniform' for x in ast.walk(e.elt)):
+        return _sp_orig_listcomp(ex, st, e)
+    it = M.iteration(ex, st, g.iter, e)
+    if it.concrete is not None:
+        return _sp_orig_listcomp(ex, st, e)
+    npc, saved = len(st.pc), dict(st.vars)
+    nd0, log0 = st.ghost.get('ndraw', z3.IntVal(0)), st.ghost.get('drawlog', [])
+    nrc0 = len(st.ghost.get('randcalls', []))
+    j = ex.fresh_int('lc')
+    cnt0 = ex.cnt
+    st.pc.append(z3.And(j >= 0, j < it.n))
+    st.ghost['ndraw'], st.ghost['drawlog'] = nd0 + j, []
+    try:
+        ex.assign(g.target, it.bind(ex, st, j), st)
+        elt = st.deref(ex.ev(e.elt, st))          # obligations raised here (index ranges, draw size) carry the guard 0 <= j < n
+    finally:
+        for k in list(st.vars):
+            if k not in saved:
+                del st.vars[k]
+            else:
+                st.vars[k] = saved[k]
+    new = st.ghost.get('drawlog', [])
+    del st.pc[npc:]                      # facts about the per-element fresh symbols are dropped; what is kept is stated below for every j
+    if not (XM.is_vec1(elt) and elt.tag == 'rvec' and len(new) == 1 and new[0]['out'] is elt.t and new[0]['method'] == 'uniform'
+            and len(new[0]['shape']) == 1):
+        raise Unsupported('list comprehension with draws: the element must be the result of exactly one Generator.uniform of a vector')
+    if not any(v is new[0]['gen'] for v in saved.values()) or len(st.ghost.get('randcalls', [])) != nrc0:
+        # a generator made while the element is evaluated (`_rand(seed).uniform(..)`, `default_rng().uniform(..)`) would be a new
+        # object per element; the generic evaluation sees only one of them
+        raise Unsupported('list comprehension with draws: the generator must exist before the comprehension (no generator per element)')
+    (p0, p1), m = new[0]['params'], Z(new[0]['shape'][0])
+    if XM._consts_after(p0, cnt0) or XM._consts_after(p1, cnt0) or XM._consts_after(m, cnt0) or M._mentions(m, j):
+        raise Unsupported('list comprehension with draws: limits / size depend on per-element intermediate values')
+    used('[rand.uniform(lo_k, hi_k, m) for k in seq] -> one draw per element in list order; list of len(seq) float vectors of length m, '
+         'vector k with entries in [lo_k, hi_k] when lo_k <= hi_k')
+    rows = ex.fresh('rows', z3.ArraySort(z3.IntSort(), XM.RA))
+    st.assume(z3.ForAll([j, _sp_i], z3.Implies(z3.And(0 <= j, j < it.n, p0 <= p1), z3.And(p0 <= rows[j][_sp_i], rows[j][_sp_i] <= p1)),
+                        patterns=[rows[j][_sp_i]]))
+    fam = dict(new[0])
+    fam.update(idx=nd0 + j, family=(j, it.n), out=rows)
+    st.ghost['drawlog'] = log0 + [fam]
+    st.ghost['ndraw'] = nd0 + it.n
+    return st.alloc(sp_VRowsF(rows, it.n, m))
+
+
+M.listcomp = sp_listcomp
+_sp_orig_vstack = M.FUNCS['np.vstack']
+
+
+def sp_m_vstack(ex, st, args, kwargs, node):
+    v = st.deref(args[0]) if args else None
+    if sp_on(ex) and isinstance(v, sp_VRowsF) and len(args) == 1 and not kwargs:
+        used('np.vstack(list of d float vectors of length m) -> d x m matrix whose rows are the vectors (d >= 1 required)')
+        ex.oblige(st, 'call-pre', 'vstack-needs-at-least-one-array', v.n >= 1, node)
+        out = VArr((v.n, v.m), None, 'rest_sp_fmat', 'f')
+        out.rows, out.transposed = v.arr, False
+        return out
+    return _sp_orig_vstack(ex, st, args, kwargs, node)
+
+
+M.FUNCS['np.vstack'] = sp_m_vstack
+
+
+def sp_fmat_entry(a, i, j):
+    """Entry [i, j] of a 'rest_sp_fmat' array (rows stacked by np.vstack, possibly transposed)."""
+    return a.rows[j][i] if a.transposed else a.rows[i][j]
+
+
+_sp_orig_attribute = M.attribute
+
+
+def sp_attribute(ex, st, v, attr, node):
+    if sp_on(ex) and isinstance(v, VArr) and v.tag == 'rest_sp_fmat' and attr == 'T':
+        used('ndarray.T of a matrix -> transposed')
+        out = VArr((v.shape[1], v.shape[0]), None, 'rest_sp_fmat', v.dtype)
+        out.rows, out.transposed = v.rows, not v.transposed
+        return out
+    return _sp_orig_attribute(ex, st, v, attr, node)
+
+
+M.attribute = sp_attribute
+
+
+# ----------------------------------------------------------------------------------------------
+# stat.cdf_confidence:  np.log (natural logarithm, uninterpreted `ln` with the facts of the group 'rest_sp_ln') and np.clip
+sp_ln = z3.Function('rest_sp_ln', T.R, T.R)
+_sp_x, _sp_y = z3.Reals('rest_sp_x rest_sp_y')
+
+
+def sp_ln_mono(x, y):
+    """ln is monotone on the positive reals"""
+    return z3.Implies(z3.And(0 < x, x <= y), sp_ln(x) <= sp_ln(y))
+
+
+def sp_ln_sign(x):
+    """ln is non-negative from 1 on and non-positive on (0, 1]"""
+    return z3.And(z3.Implies(x >= 1, sp_ln(x) >= 0), z3.Implies(z3.And(0 < x, x <= 1), sp_ln(x) <= 0))
+
+
+T.GROUPS['rest_sp_ln'] = [
+    sp_ln(1) == 0,
+    T.A([_sp_x, _sp_y], sp_ln_mono(_sp_x, _sp_y), [z3.MultiPattern(sp_ln(_sp_x), sp_ln(_sp_y))]),
+    T.A([_sp_x], z3.Implies(_sp_x >= 1, sp_ln(_sp_x) >= 0), [sp_ln(_sp_x)]),
+    T.A([_sp_x], z3.Implies(z3.And(0 < _sp_x, _sp_x <= 1), sp_ln(_sp_x) <= 0), [sp_ln(_sp_x)]),
+]
+
+
+def sp_m_log(ex, st, args, kwargs, node):
+    """np.log of a positive number.  The facts about ln that are handed out are the INSTANCES, for this argument, of the axioms
+    of the spot-checked group 'rest_sp_ln' (sign, monotonicity against ln(1) = 0) - quantifier free, so that the arithmetic
+    obligations of the caller stay outside e-matching."""
+    if not sp_on(ex) or len(args) != 1 or kwargs:
+        raise Unsupported('np.log calling pattern')
+    v = st.deref(args[0])
+    if isinstance(v, VArr):
+        raise Unsupported('np.log of an array')
+    x = to_real(ex.need_num(st, v, node))
+    ex.oblige(st, 'safety', 'log-of-positive', x > 0, node)
+    used('np.log(x) for a number x > 0 -> ln(x) (uninterpreted; ln(1) = 0, monotone, ln(x) >= 0 for x >= 1, ln(x) <= 0 for 0 < x <= 1)   [A-REAL]')
+    one = z3.RealVal(1)
+    st.assume(sp_ln(one) == 0, sp_ln_sign(x), sp_ln_mono(one, x), sp_ln_mono(x, one))
+    st.ghost['rest_sp_ln'] = st.ghost.get('rest_sp_ln', []) + [x]
+    return sp_ln(x)
+
+
+def sp_clip(v, lo, hi):
+    """np.clip(v, lo, hi) = minimum(maximum(v, lo), hi), per element"""
+    mx = z3.If(v < lo, lo, v)
+    return z3.If(mx > hi, hi, mx)
+
+
+def sp_m_clip(ex, st, args, kwargs, node):
+    if not sp_on(ex) or len(args) != 3 or kwargs:
+        raise Unsupported('np.clip calling pattern')
+    a = st.deref(args[0])
+    if not PT.is_pt(a):
+        raise Unsupported('np.clip of a value outside the pointwise tier')
+    lo, hi = [to_real(ex.need_num(st, x, node)) for x in args[1:]]
+    used('np.clip(A, lo, hi) with numbers lo, hi -> array of the shape of A, elementwise minimum(maximum(A, lo), hi) (float result for a float A)')
+    return PT.pt(a.shape, sp_clip(to_real(a.t), lo, hi))
